@@ -199,6 +199,7 @@ static std::string step(const Toks& t)
 	if (op == "contains" && na == 1) { Exact d(unhex(t[1])); return both(b2s(c.contains(S(d))), b2s(c.contains((const char*)d.p))); }
 	if (op == "starts" && na == 1) { Exact d(unhex(t[1])); return both(b2s(c.startsWith(S(d))), b2s(c.startsWith((const char*)d.p))); }
 	if (op == "ends" && na == 1) { Exact d(unhex(t[1])); return both(b2s(c.endsWith(S(d))), b2s(c.endsWith((const char*)d.p))); }
+	if (op == "containsc" && na == 1) return b2s(c.contains((char)num(t[1])));
 	if (op == "startsc" && na == 1) return b2s(c.startsWith((char)num(t[1])));
 	if (op == "endsc" && na == 1) return b2s(c.endsWith((char)num(t[1])));
 	if (op == "cmp" && na == 1) {
